@@ -237,10 +237,17 @@ def run_case(case, explicit=False):
 def quick_restart(d, case, explicit):
     sim, r, cfg = d.sim, d.sim.reactor, case['cfg']
     out = []
+    mark = sim.mark()
+    t0 = sim.now
     code, body = sim.manual_start()
     r.settle(fire_due=True)
     if code != 200 or not body or body.get('status') is not True:
         out.append(('quick-restart:reply', 'manual-start right after the stop answered %s %r' % (code, body)))
+    elif not any(k == 'connectTCP' and t == t0 for t, k, _, _ in sim.since(mark)):
+        # "manual start from the stopped state begins connecting at once" - also while the connectionLost of the connection
+        # the stop closed is still on its way
+        out.append(('quick-restart:no-immediate-connect', 'no connectTCP at the instant of the manual-start that followed the stop (pending I/O: %d)'
+                    % len(r.pending_io())))
     if explicit:
         for ev in case['cont']:
             if list(ev) not in cont_enabled(d):
